@@ -242,6 +242,21 @@ def ref_ring(faces, marked):
     return {fi for fi, f in enumerate(faces) if fi in marked or nodes.intersection(f)}
 
 
+def body_blur_tall(ctx, h, w):
+    """Masks with more rows / columns than any block size: the ring growth crosses every row and column boundary.
+    Concrete masks (a few marked cells near multiples of 64 and 128), reference = Chebyshev ball."""
+    from emsarray import masking
+    size = int(ctx.int('size', 0, 3))
+    arr = numpy.zeros((h, w), dtype=bool)
+    for (j, i) in ((63 % h, 0), (min(h - 1, 64), w - 1), (min(h - 1, 127), w // 2), (0, min(w - 1, 63)), (h - 1, min(w - 1, 128)), (min(h - 1, 255), 0), (0, min(w - 1, 256)), (min(h - 1, 256), w - 1)):
+        arr[j, i] = True
+    out = masking.blur_mask(arr, size=size)
+    want = numpy.zeros_like(arr)
+    for j, i in zip(*numpy.nonzero(arr)):
+        want[max(0, j - size):j + size + 1, max(0, i - size):i + size + 1] = True
+    ctx.check(out.shape == arr.shape and bool(numpy.array_equal(numpy.asarray(out, dtype=bool), want)), 'blur_mask == OR over the Chebyshev ball (tall / wide mask)')
+
+
 def _short_lived_meshes():
     """Other meshes buffered and dropped earlier in the same process: nothing they leave behind may reach the next one."""
     import gc
@@ -451,6 +466,11 @@ def cases(tier):
             for via in ('make_clip_mask', 'functions'):
                 yield Case(f'clipmesh:{mesh}:faceface:buf{buffer}:{via}', body_clip_mesh,
                            dict(mesh=mesh, variant='faceface', buffer=buffer, via=via), max_paths=5000)
+    for h, w in ((65, 1), (70, 3), (3, 130), (129, 2), (260, 4), (2, 515)):
+        yield Case(f'blur-tall:{h}x{w}', body_blur_tall, dict(h=h, w=w), max_paths=8)
+    # a node shared by nine faces
+    for buffer in (1, 2):
+        yield Case(f'clipmesh:fan9:edges:buf{buffer}:functions', body_clip_mesh, dict(mesh='fan9', variant='edges', buffer=buffer, via='functions', free=(0, 3, 4, 8)), max_paths=5000)
     for mesh in ('tqp', 'qqqtt'):
         for buffer in (0, 1):
             yield Case(f'clipmesh:{mesh}:edgesT-rev:buf{buffer}:make_clip_mask', body_clip_mesh,
